@@ -160,6 +160,25 @@ def case_kept_small(cid, kind, rng):
     return (ddgen.header(cid, kind, cap=1 << 12, cache=1 << 8, snap_each=True), ops)
 
 
+def case_kept_all3(cid, kind, order, rng):
+    """all 256 functions of three variables under one order; per number type one sweep over all handles on a kept
+    cache object (cache hits across handles), with one `vars` value per sweep"""
+    ops = ["VARS 3"]
+    if list(order) != [0, 1, 2]:
+        ops.append("ORDER " + " ".join(map(str, order)))
+    for i in range(256):
+        ops.append(f"{rng.choice(['TT', 'TTI'])} h{i} 3 {i:x}")
+    ops.append("GC")
+    for ty in TYPES:
+        v = rng.choice([1, 2, 3, 3, 4, 64, 73, 1021, 1100])
+        c = rng.randrange(4)
+        hs = list(range(256))
+        rng.shuffle(hs)
+        for i in hs:
+            ops.append(f"SATC {c} h{i} {v} {ty}")
+    return (ddgen.header(cid, kind, cap=1 << 13, cache=1 << 10, snap_each=True), ops)
+
+
 def case_uniform_kept(cid, kind, rng, rounds, draws):
     """pick_cube_uniform with ONE long-lived F64 cache object per case (cache_all for odd ids): sample a function,
     drop it, collect / reorder, build another function whose nodes take the freed ids, sample it with the same
